@@ -253,3 +253,62 @@ def integer_decimal_string_roundtrip(n: int) -> bool:
     """
     return ev(T['int_dec_str'], n=n) == [True]
 
+
+
+# --- added after seeded-change review ------------------------------------------------------------------------------------------
+
+import datetime as _dt  # noqa: E402
+WS = ('', ' ', chr(10), chr(9), ' ' + chr(13) + chr(10), '  ')
+HH = tuple('%02d' % h for h in range(15))
+MM = tuple('%02d' % m for m in range(60))
+T2 = parse_all({
+    'b64_u': 'xs:base64Binary(xs:untypedAtomic($s))', 'b64_s': 'xs:base64Binary($s)', 'b64_c': 'xs:untypedAtomic($s) castable as xs:base64Binary',
+    'hex_u': 'xs:hexBinary(xs:untypedAtomic($s))', 'hex_s': 'xs:hexBinary($s)', 'int_u': 'xs:integer(xs:untypedAtomic($s))', 'int_s': 'xs:integer($s)',
+    'bool_u': 'xs:boolean(xs:untypedAtomic($s))', 'bool_s': 'xs:boolean($s)', 'date_u': 'xs:date(xs:untypedAtomic($s))', 'date_s': 'xs:date($s)',
+    'time_canon': 'string(xs:time($s))', 'time_eq': 'xs:time(string(xs:time($s))) eq xs:time($s)',
+})
+
+
+def _try(tok, **v):
+    try:
+        return ev(tok, **v)
+    except ElementPathError as e:
+        return err_code(e)
+
+
+@ob(budget=300, bound='valid lexical forms of 5 types with whitespace inserted before/inside/after (6 whitespace strings per position, chosen by the solver): xs:T(xs:untypedAtomic(s)) agrees with xs:T(s)',
+    funcs=['elementpath/datatypes/binary.py:AbstractBinary.__init__', 'elementpath/datatypes/*.py constructors', 'elementpath/xpath2/_xpath2_constructors.py'])
+def untyped_and_string_sources_agree(w0: int, w1: int, w2: int) -> bool:
+    """
+    pre: 0 <= w0 <= 5 and 0 <= w1 <= 5 and 0 <= w2 <= 5
+    post: _
+    """
+    a, b, c = WS[w0], WS[w1], WS[w2]
+    b64 = a + 'aGVsbG8g' + b + 'd29ybGQh' + c
+    for ku, ks, s in (('b64_u', 'b64_s', b64), ('hex_u', 'hex_s', a + '0aF1' + c), ('int_u', 'int_s', a + '-12' + c),
+                      ('bool_u', 'bool_s', a + 'true' + c), ('date_u', 'date_s', a + '2000-02-29' + c)):
+        ru, rs = _try(T2[ku], s=s), _try(T2[ks], s=s)
+        if isinstance(ru, str) != isinstance(rs, str):
+            return False
+        if not isinstance(ru, str) and [str(x) for x in ru] != [str(x) for x in rs]:
+            return False
+    return _try(T2['b64_c'], s=b64) == [not isinstance(_try(T2['b64_u'], s=b64), str)]
+
+
+_TZC = '''
+@ob(budget=400, bound='xs:time with every timezone designator {sign}hh:mm, hh in {lo:02d}..{hi:02d}: the canonical string is a fixed point and re-parses to an equal value',
+    funcs=['elementpath/datatypes/datetime.py:Time.__str__/fromstring', 'elementpath/datatypes/datetime.py:Timezone'])
+def canonical_time_fixed_point_{name}(h: int, m: int) -> bool:
+    """
+    pre: {lo} <= h <= {hi} and 0 <= m <= 59 and (h < 14 or m == 0)
+    post: _
+    """
+    tz = {sign!r} + HH[h] + ':' + MM[m]
+    s = '12:30:00' + tz
+    canon = ev(T2['time_canon'], s=s)
+    want = '12:30:00' + ('Z' if h == 0 and m == 0 else tz)
+    return canon == [want] and ev(T2['time_canon'], s=canon[0]) == canon and ev(T2['time_eq'], s=s) == [True]
+'''
+for _sign in ('+', '-'):
+    for _lo, _hi in ((0, 4), (5, 9), (10, 14)):
+        define(_TZC.format(sign=_sign, lo=_lo, hi=_hi, name=('minus' if _sign == '-' else 'plus') + '_%02d' % _lo), globals())
